@@ -212,6 +212,53 @@ def _site(rep, rule, qn, fn, desc, got, expected_text, why):
                  sample={"site": desc, "source_formula": core.norm(str(got), 200), "closed_by": how} if ok else None, obligation=True)
 
 
+
+class _Elementwise(ast.NodeTransformer):
+    """x[l:u] -> x[i + (l - a)] for a store into target[a:...]: element i of the vectorised statement."""
+
+    def __init__(self, ivar, a, env):
+        self.ivar, self.a, self.env, self.depth = ivar, a, env, 0
+
+    def visit_Name(self, node):
+        if node.id in self.env and self.depth < 6:
+            self.depth += 1
+            out = self.visit(ast.parse(core.src(self.env[node.id]), mode="eval").body)
+            self.depth -= 1
+            return out
+        return node
+
+    def visit_Subscript(self, node):
+        sl = node.slice
+        if isinstance(sl, ast.Slice):
+            if sl.step is not None:
+                raise AnalysisError("strided slice in a vectorised difference")
+            lo = 0 if sl.lower is None else (sl.lower.value if isinstance(sl.lower, ast.Constant) and isinstance(sl.lower.value, int) else None)
+            if lo is None or lo < 0:
+                raise AnalysisError(f"slice bound '{core.src(sl)}' is not a non-negative literal")
+            off = lo - self.a
+            idx = ast.parse(f"{self.ivar} + {off}" if off > 0 else (f"{self.ivar} - {-off}" if off < 0 else self.ivar), mode="eval").body
+            return ast.Subscript(value=node.value, slice=idx, ctx=ast.Load())
+        return self.generic_visit(node)
+
+
+def _vectorised_site(fn, where):
+    """(element expression text, index name, store statement) of the single slice store 'x[a:] = expr' of a function
+    without a loop, every vector local inlined and every slice turned into the element at index i."""
+    stores = [st for st in fn.body if isinstance(st, ast.Assign) and isinstance(st.targets[0], ast.Subscript) and isinstance(st.targets[0].slice, ast.Slice)]
+    if len(stores) != 1:
+        raise AnalysisError(f"{where}: neither a loop over temperatures nor a single slice store")
+    st = stores[0]
+    sl = st.targets[0].slice
+    a = 0 if sl.lower is None else (sl.lower.value if isinstance(sl.lower, ast.Constant) else None)
+    if a is None:
+        raise AnalysisError(f"{where}: slice store with a non-literal start")
+    env = {x.targets[0].id: x.value for x in fn.body if isinstance(x, ast.Assign) and isinstance(x.targets[0], ast.Name) and x.lineno < st.lineno}
+    tgt = core.src(st.targets[0].value)
+    env.pop(tgt, None)
+    elem = _Elementwise("i", a, env).visit(ast.parse(core.src(st.value), mode="eval").body)
+    return core.src(elem), "i", st, a
+
+
 def _cp_numerical_value(fn, i, loop):
     """Symbolic value of the term appended to cp in the loop body, in terms of T-1, T+0, T+1 (temperatures at
     i-1, i, i+1) and E-1, E+0, E+1 (equilibrium energies); np.polyfit over the three-point slices is interpreted
@@ -377,24 +424,65 @@ def _r20g(rep):
     rep.instance("R20g", QHA, "QHA.run", f"fit loop {core.src(fl[0].iter) if fl else '?'}", ok_fl, "the fit does not run over the first num_elems temperatures", line=run.lineno, obligation=True)
     for qn in ("_set_thermal_expansion", "_set_heat_capacity_P_numerical", "_set_heat_capacity_P_polyfit", "_set_gruneisen_parameter"):
         fn = core.find_def(QHA, f"QHA.{qn}")
+        if not any(isinstance(x, ast.For) for x in fn.body):
+            # vectorised spelling: rows 1 .. n-2 are those of a store into x[1:] of differences of [2:] and [:-2]
+            _, _, st_, a_ = _vectorised_site(fn, f"QHA.{qn}")
+            rep.instance("R20g", QHA, f"QHA.{qn}", core.norm(core.src(st_), 80), a_ == 1, f"the vectorised differences start at row {a_}, not at row 1", line=st_.lineno, obligation=True)
+            continue
         v, loop = _loopvar(fn, f"QHA.{qn}")
         ok, how = symalg.same(symalg.open_expr(core.src(loop.iter)), symalg.open_expr("range(1, self._num_elems - 1)"))
         rep.instance("R20g", QHA, f"QHA.{qn}", core.src(loop.iter), ok, f"loop bounds allow {v}-1 or {v}+1 to leave the fitted rows, or skip rows ({how})", line=loop.lineno, obligation=True)
 
 
+
+def _r20i(rep):
+    """Result arrays are floating point whatever the dtype of the temperatures the caller supplied."""
+    rep.rule("R20i", "arrays that receive thermodynamic results are allocated with a floating dtype: np.zeros_like / empty_like / ones_like / full_like without dtype= takes the dtype of its prototype, so the prototype must be an attribute that is stored with an explicit float dtype (the temperatures are stored as given and may be integers)", 0)
+    cls = core.find_def(QHA, "QHA")
+    forced: dict[str, list[bool]] = {}
+    for a in ast.walk(cls):
+        if isinstance(a, ast.Assign) and isinstance(a.targets[0], ast.Attribute) and core.src(a.targets[0].value) == "self" and not (isinstance(a.value, ast.Constant) and a.value.value is None):
+            v = a.value
+            is_f = isinstance(v, ast.Call) and any(k.arg == "dtype" and core.src(k.value).strip("'\"") in ("double", "float", "float64", "np.float64") for k in v.keywords)
+            forced.setdefault(a.targets[0].attr, []).append(is_f)
+    for c in ast.walk(cls):
+        if isinstance(c, ast.Call) and core.src(c.func) in ("np.zeros_like", "np.empty_like", "np.ones_like", "np.full_like") and c.args and not any(k.arg == "dtype" for k in c.keywords):
+            root = c.args[0]
+            while isinstance(root, (ast.Subscript, ast.Call)):
+                root = root.value if isinstance(root, ast.Subscript) else (root.func.value if isinstance(root.func, ast.Attribute) else root)
+                if isinstance(root, ast.Call) and not isinstance(root.func, ast.Attribute):
+                    break
+            attr = root.attr if isinstance(root, ast.Attribute) and core.src(root.value) == "self" else None
+            if attr is None:
+                continue
+            ok = bool(forced.get(attr)) and all(forced[attr])
+            rep.instance("R20i", QHA, core.qualname_of(core.enclosing_function(c)), core.norm(core.src(c), 80), ok,
+                         f"the array takes the dtype of self.{attr}, which is stored without an explicit float dtype: with integer input (np.arange(0, 310, 10), a list of ints) every result written into it is truncated to an integer (a thermal expansion of 1e-5 becomes 0) and nothing refuses", line=c.lineno, obligation=True)
+
+
 def _r20f(rep):
     te = core.find_def(QHA, "QHA._set_thermal_expansion")
-    i, loop = _loopvar(te, "QHA._set_thermal_expansion")
-    tr = symalg.OpenPyTranslator(where="QHA._set_thermal_expansion")
-    tr.summary(te)
-    got = (tr.appends.get("beta") or [None])[-1]
-    _site(rep, "R20f", "QHA._set_thermal_expansion", te, "beta_i = (V[i+1]-V[i-1]) / (T[i+1]-T[i-1]) / V[i]", got,
-          f"(self._equiv_volumes[{i}+1]-self._equiv_volumes[{i}-1])/(self._temperatures[{i}+1]-self._temperatures[{i}-1])/self._equiv_volumes[{i}]",
-          "thermal expansion is not the central difference of the equilibrium volume divided by the volume at the same temperature")
-    rng = symalg.open_expr(core.src(loop.iter))
-    ok, how = symalg.same(rng, symalg.open_expr("range(1, self._num_elems - 1)"))
-    rep.instance("R20f", QHA, "QHA._set_thermal_expansion", core.src(loop.iter), ok,
-                 f"loop bounds allow i-1 or i+1 to leave the fitted range ({how})", line=loop.lineno, obligation=True)
+    if any(isinstance(x, ast.For) for x in te.body):
+        i, loop = _loopvar(te, "QHA._set_thermal_expansion")
+        tr = symalg.OpenPyTranslator(where="QHA._set_thermal_expansion")
+        tr.summary(te)
+        got = (tr.appends.get("beta") or [None])[-1]
+        _site(rep, "R20f", "QHA._set_thermal_expansion", te, "beta_i = (V[i+1]-V[i-1]) / (T[i+1]-T[i-1]) / V[i]", got,
+              f"(self._equiv_volumes[{i}+1]-self._equiv_volumes[{i}-1])/(self._temperatures[{i}+1]-self._temperatures[{i}-1])/self._equiv_volumes[{i}]",
+              "thermal expansion is not the central difference of the equilibrium volume divided by the volume at the same temperature")
+        rng = symalg.open_expr(core.src(loop.iter))
+        ok, how = symalg.same(rng, symalg.open_expr("range(1, self._num_elems - 1)"))
+        rep.instance("R20f", QHA, "QHA._set_thermal_expansion", core.src(loop.iter), ok,
+                     f"loop bounds allow i-1 or i+1 to leave the fitted range ({how})", line=loop.lineno, obligation=True)
+    else:
+        # vectorised spelling: one slice store; element i of it must be the same central difference
+        text, i, st, a = _vectorised_site(te, "QHA._set_thermal_expansion")
+        _site(rep, "R20f", "QHA._set_thermal_expansion", te, "beta_i = (V[i+1]-V[i-1]) / (T[i+1]-T[i-1]) / V[i]", symalg.open_expr(text),
+              "(self._equiv_volumes[i+1]-self._equiv_volumes[i-1])/(self._temperatures[i+1]-self._temperatures[i-1])/self._equiv_volumes[i]",
+              "thermal expansion is not the central difference of the equilibrium volume divided by the volume at the same temperature")
+        rep.instance("R20f", QHA, "QHA._set_thermal_expansion", core.norm(core.src(st), 80), a == 1,
+                     f"the vectorised differences are stored from row {a}, not from row 1 (row 0 has no left neighbour and stays 0)", line=st.lineno, obligation=True)
+    _r20i(rep)
 
     cp = core.find_def(QHA, "QHA._set_heat_capacity_P_numerical")
     i, loop = _loopvar(cp, "QHA._set_heat_capacity_P_numerical")
@@ -466,4 +554,7 @@ def selftest():
     b("t_max index off by one", QHA, "            return i + 1", "            return i - 1", "R20g", "_get_num_elems")
     b("residual adds the energies", EOS, "                return eos(v, *p) - e", "                return eos(v, *p) + e", "R20h", "residuals")
     n("residual with the opposite sign", EOS, "                return eos(v, *p) - e", "                return e - eos(v, *p)")
+    n("thermal expansion vectorised into a float array", QHA, "        beta = [0.0]\n        for i in range(1, self._num_elems - 1):\n            dt = self._temperatures[i + 1] - self._temperatures[i - 1]\n            dv = self._equiv_volumes[i + 1] - self._equiv_volumes[i - 1]\n            beta.append(dv / dt / self._equiv_volumes[i])\n", "        beta = np.zeros(len(self._temperatures) - 1, dtype=\"double\")\n        dt = self._temperatures[2:] - self._temperatures[:-2]\n        dv = self._equiv_volumes[2:] - self._equiv_volumes[:-2]\n        beta[1:] = dv / dt / self._equiv_volumes[1:-1]\n")
+    b("thermal expansion vectorised into an array of the temperatures' dtype", QHA, "        beta = [0.0]\n        for i in range(1, self._num_elems - 1):\n            dt = self._temperatures[i + 1] - self._temperatures[i - 1]\n            dv = self._equiv_volumes[i + 1] - self._equiv_volumes[i - 1]\n            beta.append(dv / dt / self._equiv_volumes[i])\n", "        beta = np.zeros_like(self._temperatures[:-1])\n        dt = self._temperatures[2:] - self._temperatures[:-2]\n        dv = self._equiv_volumes[2:] - self._equiv_volumes[:-2]\n        beta[1:] = dv / dt / self._equiv_volumes[1:-1]\n", "R20i", "zeros_like")
+    b("vectorised thermal expansion divides by the volume one row up", QHA, "        beta = [0.0]\n        for i in range(1, self._num_elems - 1):\n            dt = self._temperatures[i + 1] - self._temperatures[i - 1]\n            dv = self._equiv_volumes[i + 1] - self._equiv_volumes[i - 1]\n            beta.append(dv / dt / self._equiv_volumes[i])\n", "        beta = np.zeros(len(self._temperatures) - 1, dtype=\"double\")\n        dt = self._temperatures[2:] - self._temperatures[:-2]\n        dv = self._equiv_volumes[2:] - self._equiv_volumes[:-2]\n        beta[1:] = dv / dt / self._equiv_volumes[2:]\n", "R20f", "beta_i")
     return V
